@@ -8,6 +8,6 @@ CONSTANTS
   HostileNames = {}
   HostileVar <- NoVar
   Cfgs <- C07Cfgs
-  Rounds = 1
-INVARIANTS Export07
+  Rounds = 2
+INVARIANTS Export07 TypeOK Untouched FreshTopLevel OneNamePerPath ReportedAreUsed WholeUnderOne NoFreshNameFails Confined
 CHECK_DEADLOCK FALSE
